@@ -569,8 +569,10 @@ impl RankSelectInterleaved256 {
 
             if found_ones + word_popcount >= remaining_ones {
                 // The target bit is in this word
+                // remaining_ones and found_ones count ones (target rank = k + 1), so
+                // needed_in_word is already the 1-indexed rank uint_select1_bmi2 expects
                 let needed_in_word = remaining_ones - found_ones;
-                let bit_pos = self.uint_select1_bmi2(word, needed_in_word + 1); // +1 for 1-indexed rank
+                let bit_pos = self.uint_select1_bmi2(word, needed_in_word);
 
                 if bit_pos < BITS_PER_WORD {
                     return Ok(line_start_bit + word_idx * BITS_PER_WORD + bit_pos);
